@@ -141,6 +141,7 @@ class Model:
                     if t == 0:
                         ops.append(('connect', t, ns, 'false'))
                         ops.append(('connect', t, ns, 'cre2'))
+                        ops.append(('connect', t, ns, 'creb'))
                     ops.append(('event', t, ns))   # not connected: ignored
                 else:
                     ops.append(('cdisc', t, ns))
